@@ -55,7 +55,10 @@ CHECKS = {
              'required positions left to right, then most general provided) '
              'and ExtOK in every registry content of the bound; each state is '
              'rebuilt on a real registry in random order with noise and every '
-             'lookup key / entry point compared with the admissible set.',
+             'lookup key / entry point compared with the admissible set; '
+             'extendor order is exhausted over a provided tree including '
+             'Relookup (lookup object re-created over a populated registry), '
+             'and registry order over chains of both flavours.',
         ref='DESIGN.md 3.6, 4 C04',
         tech_extra='; traces recorded from the real code (seeded random '
                    'drivers, the repository\'s doctests) validated by '
@@ -215,8 +218,12 @@ CHECKS = {
         text='TLC checks Incompat # None <=> some admitted call shape does '
              'not bind, and the aggregation rule, over the whole signature '
              'grid; every grid point becomes real interface/implementation '
-             'functions run through verifyObject / verifyClass, with '
-             'inspect.signature guarding the specification.',
+             'functions run through verifyObject / verifyClass (function '
+             'attribute, bound method, class function, factory candidate; '
+             'the same function under both binding levels in sequence; '
+             'interfaces re-defining inherited methods; decorated '
+             'implementations), with inspect.signature guarding the '
+             'specification.',
         ref='DESIGN.md 3.9, 4 C17'),
     'C18': dict(
         spec='Signatures.tla (MC_Signatures, describe mode)',
